@@ -85,13 +85,17 @@ def clock_fault(rng, n_trial):
 def env_fault(rng, fam, params, kinds=None):
     """A per-fit environment script with a random subset of fault kinds (swarm)."""
     env = {}
-    kinds = kinds or ["clock", "arpack", "rng", "stderr"]
+    kinds = kinds or ["clock", "arpack", "rng", "stderr", "linalg"]
     if "clock" in kinds and fam == "voronoi" and rng.random() < 0.8:
         env["clock"] = clock_fault(rng, int(params.get("n_trial_calculation", 4) or 4))
     if "arpack" in kinds and fam == "pcovcur" and rng.random() < 0.7:
         env["arpack"] = {"mode": rng.choice(["dense", "sparse", "orth", "same"]), "seed": _seed(rng)}
         if rng.random() < 0.08:
             env["arpack"]["fail_at"] = rng.randint(1, 6)  # this ARPACK call does not converge
+    if "linalg" in kinds and fam in ("cur", "pcovcur", "pcovfps") and rng.random() < 0.06:
+        # a dense LAPACK-backed routine called by skmatter (eigh, pinv, lstsq ...) does not
+        # converge: the fit fails with LinAlgError; a later cold fit is judged as usual
+        env["linalg"] = {"fail_at": rng.randint(1, 6)}
     if "rng" in kinds and rng.random() < 0.5:
         env["rng"] = {"seed": _seed(rng)}
     if "stderr" in kinds and params.get("progress_bar") and rng.random() < 0.6:
